@@ -41,7 +41,7 @@ Print Assumptions C18_binder_rename_keeps_document.
 
 Theorem C18_reference_rename_keeps_document : forall g : Eval.str -> Eval.str, (forall x y, g x = g y -> x = y) ->
   forall lx P n rs,
-  Eval.eval_program lx (KeyMap.rename_refs g P) n rs = KeyMap.rmap (KeyMap.km_result g KeyMap.idx) (Eval.eval_program lx P n rs).
+  Eval.eval_program lx (KeyMap.rename_refs g P) n rs = KeyMap.rmap (KeyMap.km_result g KeyMap.idp KeyMap.idp) (Eval.eval_program lx P n rs).
 Proof. exact KeyMap.rename_reference_keeps_document. Qed.
 Print Assumptions C18_reference_rename_keeps_document.
 
@@ -50,5 +50,5 @@ Example C18_reference_rename_nonvacuous :
   exists rels sc sc',
     Eval.eval_program false KeyMap.ex_ref_P 50 KeyMap.ex_ref_rs = Eval.Ok (rels, [(Eval.KNamed 5%N, sc)]) /\
     Eval.eval_program false (KeyMap.rename_refs KeyMap.swap56 KeyMap.ex_ref_P) 50 KeyMap.ex_ref_rs =
-    Eval.Ok (map (KeyMap.km_relation KeyMap.swap56 KeyMap.idx) rels, [(Eval.KNamed 6%N, sc')]).
+    Eval.Ok (map (KeyMap.km_relation KeyMap.swap56 KeyMap.idp KeyMap.idp) rels, [(Eval.KNamed 6%N, sc')]).
 Proof. exact KeyMap.ex_rename_reference. Qed.
